@@ -297,9 +297,15 @@ def run(ctx):
             while kind != "offcentre":
                 preds, kind = gen_box(r, out)
         req = {"preds": preds}
-        if i % 8 == 7 and not targeted and not deep:
+        if i % 8 in (3, 7) and not targeted and not deep:
             req = {"cpu_list": sorted(r.sample(range(1, out["ncpu"] + 1), r.randint(1, out["ncpu"])))}
             kind = "explicit_cpu_list"
+            if r.random() < 0.6:
+                req["cpu_list"] = sorted(r.sample(range(1, out["ncpu"] + 1), r.randint(1, max(1, out["ncpu"] // 2))))
+                # an explicit cpu list together with a position selection: the listed cpus, filtered (the list is not replaced
+                # by the automatic pre-selection)
+                req["preds"] = preds
+                kind = "explicit_cpu_list+box"
         k = f"{kind}:{mode}:ncpu{out['ncpu']}"
         dist[k] = dist.get(k, 0) + 1
         with loadrun.Written(out) as w:
@@ -336,10 +342,21 @@ def run(ctx):
             cols, _ = loadrun.flatten_impl(impl["groups"], "mesh")
             fcols, _ = loadrun.flatten_impl(full["groups"], "mesh")
             names = sorted(fcols)
-            want = sorted(tuple(fcols[nm][0][j] for nm in names) for j in range(len(fcols["cpu"][0])) if int(fcols["cpu"][0][j]) in req["cpu_list"])
+            def passes(j):
+                for p_ in req.get("preds") or []:
+                    col = p_["var"].replace("position_", "position.")
+                    x = fcols[col][0][j]
+                    if x is None or not loadrun.OPS[p_["op"]](float(x), float(Fraction(p_["value"]))):
+                        return False
+                return True
+
+            want = sorted(tuple(fcols[nm][0][j] for nm in names) for j in range(len(fcols["cpu"][0]))
+                          if int(fcols["cpu"][0][j]) in req["cpu_list"] and passes(j))
             got = sorted(tuple(cols[nm][0][j] for nm in names) for j in range(len(cols.get("cpu", ([],))[0]))) if cols else []
             if want != got:
-                v = f"cpu_list={req['cpu_list']}: {len(got)} rows returned, {len(want)} rows of the full load are owned by these cpus"
+                v = (f"cpu_list={req['cpu_list']}" + (" with a position selection" if req.get("preds") else "") +
+                     f": {len(got)} rows returned, {len(want)} rows of the full load are owned by these cpus" +
+                     (" and satisfy the selection" if req.get("preds") else ""))
         else:
             v = loadrun.compare_spec(out, impl["groups"], "mesh", spec, True)
         if v:
